@@ -382,8 +382,16 @@ func genC14() *rapid.Generator[c14Case] {
 			case 0:
 				if c.V6 {
 					inner := []byte(genV6Wire(v6Cfg(0, 5, false)).Draw(t, "inner"))
+					exact := rapid.SampledFrom([]int{0, 0, 0, 0, 0, 0, 576, 1500, 4095, 4096, 4097}).Draw(t, "exactsize")
+					depth := rapid.SampledFrom([]int{0, 0, 1, 2, 3}).Draw(t, "relay")
+					if exact > 0 && depth == 0 && len(inner)+12 <= exact {
+						// an opaque filler option so that the datagram has exactly this many octets (the sizes of the
+						// usual read buffers and their neighbours)
+						fill := exact - len(inner) - 12
+						inner = append(append(inner, 0xfd, 0xea, byte(fill>>8), byte(fill)), make([]byte, fill)...)
+					}
 					inner = append(inner, 0xfd, 0xe9, 0, 4, 0, 0, 0, 0)
-					for d := rapid.SampledFrom([]int{0, 0, 1, 2, 3}).Draw(t, "relay"); d > 0; d-- {
+					for d := depth; d > 0; d-- {
 						hdr := make([]byte, 34)
 						hdr[0] = byte(rapid.SampledFrom([]int{12, 13}).Draw(t, "rtype"))
 						hdr[1] = byte(d)
@@ -403,6 +411,9 @@ func genC14() *rapid.Generator[c14Case] {
 					}
 					pc.Opts = append(opts, gen.V4Opt{Code: 224, Val: []byte{0, 0, 0, 0}})
 					r.B = refv4.Canonical(pc.Ref())
+					if exact := rapid.SampledFrom([]int{0, 0, 0, 0, 0, 0, 576, 1500, 4095, 4096, 4097}).Draw(t, "exactsize"); exact > len(r.B) {
+						r.B = append(r.B, make([]byte, exact-len(r.B))...) // zero padding after End up to an exact datagram size
+					}
 				}
 				switch rapid.IntRange(0, 3).Draw(t, "rel") {
 				case 0:
